@@ -1,7 +1,7 @@
 //! Shared by the layout-level properties (C03, C09, C10, C11, C15, C16): what a *live* EventDecoder
 //! holding a real layout answers - after the modifier keys were really pressed and after a symbolic
 //! two-event history - is exactly what the layout's map_keycode answers for the key under the
-//! modifier record the history produces.  This closes the gap between "map_keycode is right for
+//! modifier record the decoder reports (Keyboard::get_modifiers) at that moment.  This closes the gap between "map_keycode is right for
 //! every modifier record" (the per-property harnesses) and "the user types the right thing": a
 //! decoder that hands the layout a doctored or stale modifier record, caches a previous answer, or
 //! consults a different layout object is caught here.
@@ -16,19 +16,22 @@ use pc_keyboard::*;
 pub fn live_check<L: KeyboardLayout, R: KeyboardLayout>(name: &str, live: L, reference: &R) {
     let m0 = any_mods();
     let h = any_mode();
-    let mut d = evdec(live, &m0, h);
+    let mut kb = kbd_with_mods(ScancodeSet2::new(), live, &m0, h);
     let (k1, s1) = (any_key(), any_state());
     let (k2, s2) = (any_key(), any_state());
-    let _ = d.process_keyevent(KeyEvent::new(k1, s1));
-    let _ = d.process_keyevent(KeyEvent::new(k2, s2));
-    let m = spec_next(&spec_next(&m0, k1, s1), k2, s2);
+    let _ = kb.process_keyevent(KeyEvent::new(k1, s1));
+    let _ = kb.process_keyevent(KeyEvent::new(k2, s2));
+    // The modifier record the decoder itself reports (whether it is the one the history *should* have
+    // produced is C04's business, not that of the layout properties).
+    let m = kb.get_modifiers().clone();
     let k = any_key();
     kani::assume(!is_modifier_key(k));
-    let got = d.process_keyevent(KeyEvent::new(k, KeyState::Down));
+    let got = kb.process_keyevent(KeyEvent::new(k, KeyState::Down));
     let want = reference.map_keycode(k, &m, h);
-    crate::show!("live decoder {} mods0={:?} ev1=({:?},{:?}) ev2=({:?},{:?}) mode={:?} key={:?} got={:?} layout says {:?} for mods {:?}", name, m0, k1, s1, k2, s2, h, k, got, want, m);
-    assert!(got == Some(want), "C03/C09/C10/C11/C15/C16 (live decoder): a key press is not decoded as the layout's map_keycode says for the modifier state the event history produces");
+    crate::show!("live decoder {} pressed={:?} ev1=({:?},{:?}) ev2=({:?},{:?}) mode={:?} key={:?} got={:?} layout says {:?} for the reported modifiers {:?}", name, m0, k1, s1, k2, s2, h, k, got, want, m);
+    assert!(got == Some(want), "C03/C09/C10/C11/C15/C16 (live decoder): a key press is not decoded as the layout's map_keycode says for the modifier state the decoder reports");
     kani::cover!(k == k1 && s1 == KeyState::Down && k2 == KeyCode::NumpadLock && s2 == KeyState::Down);
+    kani::cover!(m.capslock && m.ralt && !m.numlock);
 }
 
 macro_rules! live_layout {
